@@ -234,6 +234,19 @@ CLAIMED["C03"] = dict(
          "block_order(0..5) equals n - (level_I + level_J).",
     note=TB + "The spec-level Lean development of the design (isr_spec, isr_matrix_value, transpose_real) is not built: the tie of the derived expressions to explicit intermediate states is numerical (exact rationals, finitely many models). Trusted: harness/isr_oracle.py, harness/detspace.py. mp partitioning only; orders as enumerated.")
 
+CLAIMED["C05"] = dict(
+    category="exploration", design="DESIGN.md §4 C05",
+    technique="exact determinant-space matrix elements between explicitly constructed intermediate states contracted with random amplitude vectors (exploration over random models) + ground-state-shift clause and default-operator clause decided by the proved Lean checker checkEquiv",
+    text="Main clause: every enumerated expectation-value contribution (variants pp, ip, ea, dip, dea; diagonal and coupling blocks; "
+         "one- and two-particle operators; both subtract_gs flavours) and transition moment (default and higher-rank operator strings) "
+         "is evaluated with model integrals, ground-state coefficients, a random operator matrix and random amplitude vectors and must "
+         "equal, exactly, the same-order coefficient of sum_IJ x_I <I|d - <d>|J> y_J resp. sum_I x_I <I|d|Psi0> over intermediate states "
+         "built explicitly in determinant space, with x_I = sqrt(n_o! n_v!) X_I (documented normalisation; square roots compared "
+         "symbolically) - exploration, no theorem. Structural clause: expec(no shift) - expec(shift) = <d>_gs^(n) sum_I X_I Y_I for "
+         "diagonal blocks and 0 for coupling blocks, accepted by checkEquiv for all Hamiltonians, operator matrices and amplitude "
+         "vectors; default operator string per variant.",
+    note=TB + "No Lean spec of the ISR (see C03). Mixed left/right variants are not covered. Trusted: harness/isr_oracle.py, harness/detspace.py, the statement of the normalisation. mp partitioning; orders as enumerated.")
+
 PENDING = {
 }
 
